@@ -34,7 +34,52 @@ func govcResultKey(r *Result) string {
 }
 
 func TestGovcDeterminismReplay(t *testing.T) {
+	evals, nontrivial := 0, 0
+	defer func() {
+		fmt.Printf("GOVC-CASES evaluations=%d distinct_nontrivial=%d rule=%s\n", evals, nontrivial, "documents exercising the map-range sites x 300 repeated runs (all result fields except timing must be equal); entry-point agreement ApplyForReader(bytes) == Apply(dom.Parse(bytes)) == ApplyForFile(file) over documents with plain, decomposed, soft-hyphen, entity and non-UTF-8 text x options; history independence: the same call before and after unrelated calls; non-trivial = a non-empty result was compared")
+	}()
+	// entry points agree: ApplyForReader / ApplyForFile are Apply after dom.Parse of the same bytes
+	for ci, src := range govcEntryDocs() {
+		for oi, mk := range govcEntryOptions {
+			key := fmt.Sprintf("entry-points/doc%d/opt%d", ci, oi)
+			rr, err1 := ApplyForReader(strings.NewReader(src), mk())
+			doc, perr := dom.Parse(strings.NewReader(src))
+			if perr != nil {
+				continue
+			}
+			ra, err2 := Apply(doc, mk())
+			evals++
+			if (err1 == nil) != (err2 == nil) {
+				t.Errorf("GOVC-FAIL %s :: entry points give different results: ApplyForReader error %v, Apply(dom.Parse) error %v", key, err1, err2)
+				continue
+			}
+			if err1 != nil {
+				continue
+			}
+			if rr.Text != "" {
+				nontrivial++
+			}
+			if ci == 0 && oi == 0 {
+				fmt.Printf("GOVC-SAMPLE %s -> %d words from both entry points\n", key, len(strings.Fields(rr.Text)))
+			}
+			if govcResultKey(rr) != govcResultKey(ra) {
+				t.Errorf("GOVC-FAIL %s :: entry points give different results for the same bytes: ApplyForReader text %q..., Apply(dom.Parse) text %q...", key, govcHead(rr.Text), govcHead(ra.Text))
+			}
+			// history independence: the same call again after other calls
+			for _, other := range govcDetCases {
+				u, _ := nurl.Parse(other.url)
+				ApplyForReader(strings.NewReader(other.html), &Options{OriginalURL: u, PaginationAlgo: other.algo})
+			}
+			rr2, err3 := ApplyForReader(strings.NewReader(src), mk())
+			evals++
+			if err3 != nil || govcResultKey(rr2) != govcResultKey(rr) {
+				t.Errorf("GOVC-FAIL %s/again :: different results for the same input after unrelated calls", key)
+			}
+		}
+	}
 	for _, c := range govcDetCases {
+		evals++
+		nontrivial++
 		seen := map[string]int{}
 		first := ""
 		for i := 0; i < 300; i++ {
@@ -56,7 +101,46 @@ func TestGovcDeterminismReplay(t *testing.T) {
 				j := strings.Index(k, "\nurl=")
 				pis = append(pis, fmt.Sprintf("%dx %s", n, k[i:j]))
 			}
-			t.Errorf("%s: %d different results over 300 runs on the same input: %s", c.name, len(seen), strings.Join(pis, " | "))
+			t.Errorf("GOVC-FAIL repeat/%s :: %d different results over 300 runs on the same input: %s", c.name, len(seen), strings.Join(pis, " | "))
 		}
+	}
+}
+
+func govcHead(s string) string {
+	if len(s) > 60 {
+		return s[:60]
+	}
+	return s
+}
+
+var govcEntryOptions = []func() *Options{
+	func() *Options { return nil },
+	func() *Options { return &Options{} },
+	func() *Options {
+		u, _ := nurl.Parse("http://example.com/a/b?page=2")
+		return &Options{OriginalURL: u}
+	},
+	func() *Options {
+		u, _ := nurl.Parse("http://example.com/a/b?page=2")
+		return &Options{OriginalURL: u, PaginationAlgo: PageNumber}
+	},
+	func() *Options { return &Options{SkipPagination: true} },
+}
+
+// govcEntryDocs: byte streams whose parse involves normalisation steps (composition, soft hyphens,
+// entities, legacy encodings), so that a different parser behind one entry point is visible.
+func govcEntryDocs() []string {
+	prose := strings.Repeat("lorem ipsum dolor sit amet consectetur adipiscing elit sed do eiusmod tempor ", 5)
+	wrap := func(title, body string) string {
+		return "<html><head><title>" + title + "</title></head><body><article><h1>" + title + "</h1><p>" + body + "</p><p>" + prose + "</p><div class=\"pager\"><a href=\"/a/b?page=1\">1</a> 2 <a href=\"/a/b?page=3\">3</a></div></article></body></html>"
+	}
+	return []string{
+		wrap("Plain ascii title here", prose),
+		wrap("Gru\u0308ne Ba\u0308ume u\u0308berall", "Ein Bei\u00adspiel mit Trenn\u00adhilfen und zerlegten Umlauten: a\u0308 o\u0308 u\u0308 "+prose),
+		wrap("Soft\u00adhyphen ti\u00adtle words", strings.ReplaceAll(prose, "consectetur", "con\u00adsec\u00adte\u00adtur")),
+		wrap("Entities &amp; &eacute;l&egrave;ve &#x1F600;", "Caf&eacute; na&iuml;ve &nbsp; co&ouml;perate &lt;tag&gt; "+prose),
+		"<html><head><meta charset=\"iso-8859-1\"><title>Latin one</title></head><body><p>caf\xe9 na\xefve " + prose + "</p><p>" + prose + "</p></body></html>",
+		"<p>fragment without html element " + prose + "</p>",
+		"\xef\xbb\xbf" + wrap("With byte order mark", prose),
 	}
 }
